@@ -28,6 +28,10 @@ CHECKS = {
    "The OS enumeration order of a directory is owned by the simulator (seeded permutation at os.listdir, all n! orders for directories of up to 4 names). Seeded directories mix names on both sides of every alternative of the shipped ignore pattern, dot-files, several UMN link files (overrides of the same entry from two files, hides, additions with tying titles) and .cap overrides; both directory handlers, eight protocols, both server types. The same listing is requested under K enumeration orders and must be byte-identical; its local entries must be exactly the visible names once each plus exactly the link-file additions; every excluded name must still be served by exact selector.",
    "Trusts the simulator and a 20-line visible-set model (dot-file, re.search(ignorepatt, selectorbase/name), Type=X in .cap or a ./ link block). One known finding (D12: plain DirHandler lists dot-files).",
    "deterministic simulation: seeded/exhaustive readdir-order permutation at the listdir seam, determinism-across-orders oracle + independent visible-set model"),
+ "C19": ("fault_enumeration", "3.9",
+   "initialization.initialize() runs for real on a generated config file with every privileged entry point (socket bind, TLS key load, fork, setpgrp, signal, pwd/grp lookups, chroot, chdir, setgroups, setregid, setreuid and their set*id relatives) replaced by a recorder backed by a process model (root dir, cwd, uid, gid, groups) that enforces the kernel's preconditions and fails one chosen call. The grid (usechroot x setuid x setgid x TLS x detach x server type) x (no fault or each applicable call failing) x (error kind) is finite and enumerated completely in both tiers (evidence: exhaustive=true); order, exactly-once, final credentials, root rewritten, cwd inside the new root, abort on failure and no privileged call after a failure are checked over the recorded call sequence.",
+   "Privileged system calls are modelled, not executed; the process is assumed to start as root with a cwd outside the document root.",
+   "deterministic simulation of the privileged-syscall seam: recorded call sequence + process model, exhaustive single-fault enumeration over the option grid"),
 }
 
 NA = {
@@ -46,7 +50,6 @@ PENDING = {
  "C01": "claimed in DESIGN.md; check not built yet in this revision",
  "C02": "claimed in DESIGN.md; check not built yet in this revision",
  "C03": "claimed in DESIGN.md; check not built yet in this revision",
- "C19": "claimed in DESIGN.md; check not built yet in this revision",
 }
 
 def main():
